@@ -2,11 +2,13 @@
 unparser and the SQL planner."""
 from enumtab import *
 
-TECHNIQUE = 'static analysis: exhaustive evaluation (A1) of the unparser\'s operator / join mappings composed with the SQL planner\'s inverse mappings'
+TECHNIQUE = ('static analysis: exhaustive evaluation (A1) of the unparser\'s operator / join mappings composed with the SQL planner\'s inverse mappings; '
+             'field coverage (A6) of the plan structs by MIR place reads over the unparser\'s call tree')
 EXPLANATION = ('For every Operator variant the unparser accepts, parse_sql_binary_op(op_to_sql(op)) = op (variants the unparser refuses '
                'with an explicit error, and Divide whose token is dialect-dependent, are listed as skipped). For every JoinType the '
                'unparser accepts, the JoinOperator it emits is mapped back to the same JoinType by the SQL planner\'s '
-               'parse_relation_join. Everything else about unparsing (expressions, aliases, subqueries, dialect quirks) is not decided.')
+               'parse_relation_join. Source-struct direction (unparser-reads-every-field): every field of the plan node / expression structs the unparser accepts is read somewhere '
+               'in the unparser, otherwise that part of the plan cannot be in the SQL text. Everything else about unparsing (expressions, aliases, subqueries, dialect quirks) is not decided.')
 ASSUMPTIONS = ['sqlparser renders and re-parses BinaryOperator / JoinOperator variants faithfully (the AST value is handed over, not text)']
 
 OP = 'datafusion_expr_common::operator::Operator'
@@ -133,3 +135,41 @@ def run(ctx):
             ctx.ok('join-roundtrip', v.name, sample={'join_type': v.name, 'sql_join_operator': tok.name})
     ctx.floor('join-roundtrip', 'join types round-tripped', n, 7)
     ctx.selftest('round-trip comparison is by variant name', True)
+    unparser_reads_plan_fields(ctx)
+
+
+# parts of a plan node the unparser may leave unread without changing the meaning of the SQL text, each with the reason read in the source
+UNPARSER_EXEMPT = {
+    ('Subquery', 'outer_ref_columns'): 'derived: recomputed by the SQL planner from the subquery text',
+    ('TableScan', 'statistics_requests'): 'optimizer hint for statistics collection, does not change rows',
+    ('Unnest', 'exec_columns'): 'Unnest::try_new computes list_type_columns / struct_type_columns (which the unparser reads) from it: same information',
+    ('Unnest', 'dependency_indices'): 'derived by Unnest::try_new from the input schema',
+    ('Explain', 'stringified_plans'): 'EXPLAIN is not unparsed',
+    ('Explain', 'logical_optimization_succeeded'): 'EXPLAIN is not unparsed',
+}
+UNPARSER_FOLLOW = ('datafusion_sql::unparser', '<datafusion_sql::unparser')
+
+
+def unparser_reads_plan_fields(ctx):
+    """round 4: every field of the plan node / expression structs the unparser accepts is read somewhere in the unparser (the C35 source-struct
+    rule with the unparser as the encoder, judged per struct): a part of the plan the unparser never looks at cannot be in the SQL text."""
+    import protocov, common
+    rule = 'unparser-reads-every-field'
+    f = ctx.facts
+    roots = [d for d in f.fn_index if d.startswith('datafusion_sql::unparser::') and '{closure' not in d and d.endswith(('>::plan_to_sql', '>::expr_to_sql_inner'))]
+    proot = [d for d in roots if d.endswith('plan_to_sql')]
+    eroot = [d for d in roots if d.endswith('expr_to_sql_inner')]
+    if not proot or not eroot:
+        ctx.lost(rule, 'Unparser::plan_to_sql / Unparser::expr_to_sql_inner')
+        return
+    n = protocov.check_encoder_reads(ctx, 'LogicalPlan', proot[0], 'datafusion_expr::logical_plan::plan::LogicalPlan', rule=rule, exempt=UNPARSER_EXEMPT,
+                                     follow=UNPARSER_FOLLOW, per_variant=False)
+    n += protocov.check_encoder_reads(ctx, 'Expr', eroot[0], 'datafusion_expr::expr::Expr', rule=rule, exempt=UNPARSER_EXEMPT, follow=UNPARSER_FOLLOW, per_variant=False)
+    ctx.floor(rule, 'plan / expression structs the unparser reads', n, 25)
+    st = ctx.st
+    probe = common.Ctx(ctx.pid, ctx.tier, st, st, {})
+    probe.known = []
+    SPL = 'dfscan_selftest::protos::lp::'
+    protocov.check_encoder_reads(probe, 'Plan', SPL + 'encode', SPL + 'Plan', rule='st-src', exempt={}, follow=('dfscan_selftest::protos::lp',), per_variant=False, facts=st)
+    ctx.selftest('unparser-reads-every-field (per-struct mode, custom follow set) reports Scan.fetch never read by the selftest encoder, accepts Sort',
+                 sorted(v['key'] for v in probe.viol) == ['st-src|Scan.fetch'])
